@@ -554,6 +554,44 @@ func scopeOp(d dialect, a dsch) *op {
 	return o
 }
 
+// realmOp marshals a realm of several schemas whose tables share names across schemas (so that
+// their HCL blocks need a schema qualifier) and whose tables may be named like one of the schemas;
+// the document is then evaluated and marshalled again.
+func realmOp(d dialect, pairs [][2]string) *op {
+	o := &op{name: "hcl-realm/" + d.name}
+	var first []byte
+	o.steps = []func() error{
+		func() (err error) {
+			r := schema.NewRealm()
+			byName := map[string]*schema.Schema{}
+			for _, p := range pairs {
+				sc, ok := byName[p[0]]
+				if !ok {
+					sc = schema.New(p[0])
+					byName[p[0]] = sc
+					r.AddSchemas(sc)
+				}
+				sc.AddTables(schema.NewTable(p[1]).AddColumns(schema.NewColumn("id").SetType(d.intT())))
+			}
+			first, err = d.marshal(r)
+			return err
+		},
+		func() error {
+			var r schema.Realm
+			if err := d.eval(first, &r, nil); err != nil {
+				return fmt.Errorf("eval: %w\n%s", err, first)
+			}
+			second, err := d.marshal(&r)
+			if err != nil {
+				return err
+			}
+			o.out = append(append(first, []byte("--again--\n")...), second...)
+			return nil
+		},
+	}
+	return o
+}
+
 func sumOp(files map[string]string) *op {
 	o := &op{name: "dir-sum"}
 	dir := &migrate.MemDir{}
@@ -608,6 +646,7 @@ func digest(b []byte) string {
 type scenario struct {
 	a, b  dsch
 	files map[string]string
+	realm [][2]string // (schema, table) pairs of a multi-schema realm
 }
 
 func genScenario(t *simkit.Tape) scenario {
@@ -623,6 +662,17 @@ func genScenario(t *simkit.Tape) scenario {
 		}
 		sc.files[fmt.Sprintf("2024010100%04d_%c%d.sql", version, 'a'+rune(t.Draw("name-letter", 6)), i)] = fmt.Sprintf("CREATE TABLE x%d (id int);\n", i)
 	}
+	// A realm of two or three schemas; table names come from a small pool that includes the schema
+	// names, so that names repeat across schemas and a table may be named like a schema.
+	pool := []string{"users", "orders", "s1", "s2", "s3"}
+	seen := map[[2]string]bool{}
+	for i, n := 0, t.Range("realm-tables", 3, 7); i < n; i++ {
+		p := [2]string{fmt.Sprintf("s%d", 1+t.Draw("realm-schema", 3)), pool[t.Draw("realm-table", len(pool))]}
+		if !seen[p] {
+			seen[p] = true
+			sc.realm = append(sc.realm, p)
+		}
+	}
 	return sc
 }
 
@@ -633,6 +683,7 @@ func (sc scenario) ops(perm func(int) []int) []*op {
 	}
 	out = append(out, richOp(dialects[1], 10+len(sc.files)), richOp(dialects[2], 10+len(sc.files)))
 	out = append(out, scopeOp(dialects[1], sc.a), scopeOp(dialects[2], sc.a))
+	out = append(out, realmOp(dialects[1], sc.realm), realmOp(dialects[2], sc.realm))
 	return append(out, sumOp(sc.files))
 }
 
